@@ -875,6 +875,7 @@ struct Cfg {
     static constexpr bool copyable   = (std::is_copy_constructible_v<Es> && ...);
     static constexpr bool assignable = (!std::is_const_v<Es> && ...);
     static constexpr bool has_ref    = (std::is_reference_v<Es> || ...);
+    static constexpr bool is_ii      = sizeof...(Es) == 2 && (std::is_same_v<Es, int> && ...);
     static constexpr bool has_mo     = (!std::is_copy_constructible_v<Es> || ...);
     template <typename X>
     static constexpr int cnt()
@@ -904,6 +905,7 @@ struct Cfg<false> {
     static constexpr bool copyable   = true;
     static constexpr bool assignable = true;
     static constexpr bool has_ref    = false;
+    static constexpr bool is_ii      = false;
     static constexpr bool has_mo     = false;
     static constexpr bool unique     = true;
     template <size_t I>
@@ -1230,7 +1232,7 @@ bool run_tup(std::string const& name, std::string const& op, json const& x, json
             C::vals(p, ret);
         }
     } else if (op == "mft_il") {
-        if constexpr (N != 2 || !std::is_same_v<std::remove_cvref_t<typename C::template E<0>>, int> || (C::is_pair && !VP_MFT_PAIR)) {
+        if constexpr (!C::is_ii || (C::is_pair && !VP_MFT_PAIR)) {
             ok = false;
         } else {
             TT p = C::build(pv, sp);
